@@ -5,6 +5,7 @@ import (
 	"context"
 	"crypto/ecdsa"
 	"os"
+	"sync/atomic"
 	"time"
 
 	"github.com/alephium/wormhole-fork/node/pkg/common"
@@ -51,6 +52,7 @@ type Options struct {
 	SendCap    int
 	ObsvReqCap int
 	DB         *db.Database // share an already open store (the rig then does not close it)
+	ObsvCap    int          // capacity of the observation queue (0: see obsvCapFor)
 }
 
 // New builds a processor over a fresh badger store in a scratch directory.
@@ -77,7 +79,7 @@ func New(o Options) (*Rig, error) {
 		LockC:     make(chan *common.MessagePublication),
 		SetC:      make(chan *common.GuardianSet),
 		SendC:     make(chan []byte, o.SendCap),
-		ObsvC:     make(chan *gossipv1.SignedObservation),
+		ObsvC:     make(chan *gossipv1.SignedObservation, obsvCapFor(o)),
 		ObsvReqC:  make(chan *gossipv1.ObservationRequest, o.ObsvReqCap),
 		InjectC:   make(chan *vaa.VAA),
 		SignedInC: make(chan *gossipv1.SignedVAAWithQuorum),
@@ -242,12 +244,66 @@ func (r *Rig) DrainMsgPubEvents() int {
 	}
 }
 
-// TakeLoopback waits briefly for the own-signature loop-back goroutine to offer its observation.
+// ObsvCap is the capacity of the observation queue in guardiand (node.go).
+const ObsvCap = 50
+
+// obsvCapFor: direct mode gives the queue its production capacity (the harness reads it itself). In run mode the queue
+// is unbuffered so that every send is a rendezvous with the Run loop: events sent on different channels are then
+// processed in the order the harness sent them, which the step-by-step comparison relies on.
+func obsvCapFor(o Options) int {
+	if o.ObsvCap > 0 {
+		return o.ObsvCap
+	}
+	if o.Run {
+		return 0
+	}
+	return ObsvCap
+}
+
+var loopbackMisses int32
+
+// TakeLoopback waits briefly for the own-signature loop-back goroutine to offer its observation. After three misses
+// in one process the wait is cut to 150 ms: a tree on which the loop-back never comes must not cost 5 s per message.
 func (r *Rig) TakeLoopback(wait time.Duration) *gossipv1.SignedObservation {
+	if atomic.LoadInt32(&loopbackMisses) >= 3 && wait > 150*time.Millisecond {
+		wait = 150 * time.Millisecond
+	}
 	select {
 	case o := <-r.ObsvC:
 		return o
 	case <-time.After(wait):
+		if wait > 0 {
+			atomic.AddInt32(&loopbackMisses, 1)
+		}
 		return nil
+	}
+}
+
+// FillObsvQueue fills the observation queue to its capacity with junk (a gossip burst the processor has not got round
+// to yet); DrainObsvQueue empties it again and returns whatever is not junk - own loop-back observations that were
+// waiting for room.
+func (r *Rig) FillObsvQueue() int {
+	n := 0
+	for {
+		select {
+		case r.ObsvC <- &gossipv1.SignedObservation{MessageId: "junk"}:
+			n++
+		default:
+			return n
+		}
+	}
+}
+
+func (r *Rig) DrainObsvQueue(settle time.Duration) []*gossipv1.SignedObservation {
+	var out []*gossipv1.SignedObservation
+	for {
+		select {
+		case o := <-r.ObsvC:
+			if o.MessageId != "junk" {
+				out = append(out, o)
+			}
+		case <-time.After(settle):
+			return out
+		}
 	}
 }
